@@ -37,7 +37,7 @@ IdDom == [
   strip  |-> BOOLEAN,
   forged |-> {"none", "canonical", "lower", "mixed", "two", "canonical+lower", "asserted-first", "asserted-last", "empty-first", "asserted-only"},
   auth   |-> {"none", "basic", "bearer", "two", "lower"},
-  kind   |-> {"get", "post", "shim-open"},
+  kind   |-> {"get", "post", "shim-open", "shim-open-userinfo"},   \* (userinfo: the websocket URL itself carries "user:password@")
   asserted |-> {"email", "empty"},       \* what the proxy asserts: an identity, or none (the stand-alone proxy never has one)
   shim   |-> BOOLEAN,
   sessions |-> BOOLEAN ]
